@@ -708,6 +708,37 @@ def gen_diskrec():
            "def updateKeyWrites : List (List Nat × List Nat) := [" + ", ".join(f"({bytes_lit(a)}, {bytes_lit(c)})" for a, c in ups) + "]", "", "end Nun.Gen", ""]
     return "\n".join(out)
 
+# the lines of live replication as they are PRINTED: for each formatter the format text and the arguments in order (the FIRST format!
+# of the function body) — interpreted in Lean by a `{}`-substituting printer and proved equal to the model's message functions
+WIRE_SITES = [("get_replicate_message", r"pub fn get_replicate_message\s*\("), ("get_replicate_remove_message", r"pub fn get_replicate_remove_message\s*\("),
+              ("get_replicate_increment_message", r"pub fn get_replicate_increment_message\s*\("), ("get_resolve_message", r"pub fn get_resolve_message\s*\("),
+              ("message_to_replicate", r"pub fn message_to_replicate\s*\("), ("replicate_message_with_sender", r"pub fn replicate_message_with_sender\s*\(")]
+
+def gen_wire():
+    out = ["namespace Nun.Gen", "",
+           "/-- (formatter, format text, arguments in order) -/",
+           "def wireFormats : List (List Nat × List Nat × List (List Nat)) := ["]
+    for ix, (name, hdr) in enumerate(WIRE_SITES):
+        raw, b = fn_body("replication_ops.rs", hdr, f"wire formatter {name}")
+        m = re.search(r"format!\s*\(\s*\"", b)
+        if not m: raise ExtractError(f"wire formatter {name}: no format! found")
+        i = m.end(); j = b.index('"', i)
+        tmpl = unescape(raw[i:j])
+        k = j + 1; depth = 1; args_txt = ""
+        while depth > 0:
+            c = b[k]
+            if c == "(": depth += 1
+            elif c == ")": depth -= 1
+            if depth > 0: args_txt += c
+            k += 1
+        args = [re.sub(r"\s+", "", a) for a in args_txt.split(",") if a.strip()]
+        if tmpl.count("{}") != len(args) or "{" in tmpl.replace("{}", ""):
+            raise ExtractError(f"wire formatter {name}: {tmpl!r} with arguments {args} is not a plain positional format")
+        out.append(f"  -- {name}: {tmpl!r} <- {', '.join(args)}")
+        out.append(f"  ({bytes_lit(name)}, {bytes_lit(tmpl)}, [" + ", ".join(bytes_lit(a) for a in args) + "])" + ("," if ix + 1 < len(WIRE_SITES) else ""))
+    out += ["]", "", "end Nun.Gen", ""]
+    return "\n".join(out)
+
 def write(name, text):
     os.makedirs(OUT, exist_ok=True)
     p = os.path.join(OUT, name)
@@ -717,7 +748,7 @@ def write(name, text):
 
 def main():
     errors = []
-    for name, fn in [("Lits.lean", gen_lits), ("Guards.lean", gen_guards), ("PanicSites.lean", gen_panic_sites), ("Atomic.lean", gen_atomic), ("Close.lean", gen_close), ("Notify.lean", gen_notify), ("Commands.lean", gen_commands), ("Trailers.lean", gen_trailers), ("Flag.lean", gen_flag), ("OpRec.lean", gen_oprec), ("DiskRec.lean", gen_diskrec)]:
+    for name, fn in [("Lits.lean", gen_lits), ("Guards.lean", gen_guards), ("PanicSites.lean", gen_panic_sites), ("Atomic.lean", gen_atomic), ("Close.lean", gen_close), ("Notify.lean", gen_notify), ("Commands.lean", gen_commands), ("Trailers.lean", gen_trailers), ("Flag.lean", gen_flag), ("OpRec.lean", gen_oprec), ("DiskRec.lean", gen_diskrec), ("Wire.lean", gen_wire)]:
         try:
             write(name, "-- GENERATED by extract/extract.py from /repo/src — do not edit\n" + fn())
         except ExtractError as e:
